@@ -2,9 +2,14 @@
 // counted object type; prints one line per case in the format of ocaml/C12_driver.ml, followed by the verdict of the
 // property itself evaluated on the implementation's observations alone (P=ok / P=bad@step:reason).
 //
+// case line:  seq <kinds> <op> <op> ...     kinds = one letter per handle variable:
+//     M  tlx::CountingPtr<Obj>                    (default Deleter)
+//     C  tlx::CountingPtr<const Obj>              (default Deleter; the converting overloads are the M -> C ones)
+//     N  tlx::CountingPtrNoDelete<Obj>            (CountingPtrNoOperationDeleter: counts like any handle, never deletes)
 // Handle variables live in raw storage (placement new / explicit destructor call), so that every constructor and
-// the destructor are exercised as primitives.  Variable v is a CountingPtr<Obj> when v is even and a
-// CountingPtr<const Obj> when v is odd; the converting (template) overloads are the Obj -> const Obj ones.
+// the destructor are exercised as primitives.  Handles of different kinds meet on the same object through get()
+// (construction from the raw pointer).  Every member of the class is exercised: the mutating ones as operations,
+// the observers (get, bool, valid, empty, unique, use_count, *, ->, all comparison operators, operator<<) after every step.
 #include <cstdio>
 #include <cstdlib>
 #include <cstring>
@@ -14,19 +19,22 @@
 #include <set>
 #include <sstream>
 #include <string>
+#include <type_traits>
 #include <utility>
 #include <vector>
 
 #include <tlx/counting_ptr.hpp>
 
 // ---------------------------------------------------------------- counted object type
+struct Obj;
 struct Registry {
     std::vector<int> dcount;            // destructor calls per object id
+    std::vector<const Obj*> addr;       // address per object id
     std::set<const void*> live;         // addresses of live instances
     int errors = 0;
     std::string first_error;
     void err(const std::string& e) { if (!errors++) first_error = e; }
-    void reset() { dcount.clear(); live.clear(); errors = 0; first_error.clear(); }
+    void reset() { dcount.clear(); addr.clear(); live.clear(); errors = 0; first_error.clear(); }
     static Registry& get() { static Registry r; return r; }
 };
 
@@ -38,6 +46,7 @@ struct Obj : public tlx::ReferenceCounter {
         auto& R = Registry::get();
         id = static_cast<int>(R.dcount.size());
         R.dcount.push_back(0);
+        R.addr.push_back(this);
         if (!R.live.insert(this).second) R.err("construct over live object");
     }
     explicit Obj(int x) : payload(x), heap(new int(x)) { reg(); }
@@ -54,26 +63,35 @@ struct Obj : public tlx::ReferenceCounter {
 
 using PM = tlx::CountingPtr<Obj>;
 using PC = tlx::CountingPtr<const Obj>;
+using PN = tlx::CountingPtrNoDelete<Obj>;
 template class tlx::CountingPtr<Obj>;
 template class tlx::CountingPtr<const Obj>;
+template class tlx::CountingPtr<Obj, tlx::CountingPtrNoOperationDeleter>;
 
 static const int MAXV = 8;
 
 struct Slot {
-    alignas(PM) unsigned char buf[sizeof(PM) > sizeof(PC) ? sizeof(PM) : sizeof(PC)];
+    alignas(PM) unsigned char buf[sizeof(PM)];
     bool live = false;
-    PM& m() { return *reinterpret_cast<PM*>(buf); }
-    PC& c() { return *reinterpret_cast<PC*>(buf); }
+    template <typename T> T& as() { return *reinterpret_cast<T*>(buf); }
 };
-
-static bool is_c(long v) { return (v & 1) != 0; }
+static_assert(sizeof(PM) == sizeof(PC) && sizeof(PM) == sizeof(PN), "one pointer each");
 
 struct Machine {
     Slot s[MAXV];
     int nv = 0;
+    std::string kinds;
     std::string illtyped;
+    std::vector<int> prev_handles;     // per object: handles after the previous step
+    std::vector<int> orphaned;         // per object: its last handle was a no-delete handle (alive, unowned, legitimately)
 
-    const Obj* getp(int v) { return is_c(v) ? s[v].c().get() : s[v].m().get(); }
+    char k(long v) const { return kinds[static_cast<size_t>(v)]; }
+
+    // f(handle&) on the variable's real type
+    template <typename F> void with(long v, F f) {
+        switch (k(v)) { case 'M': f(s[v].as<PM>()); break; case 'C': f(s[v].as<PC>()); break; default: f(s[v].as<PN>()); }
+    }
+    const Obj* getp(long v) { const Obj* p = nullptr; with(v, [&](auto& a) { p = a.get(); }); return p; }
 
     // returns false if the lifetime precondition fails (step skipped)
     bool apply(const std::string& n, const std::vector<long>& f) {
@@ -89,97 +107,124 @@ struct Machine {
         // typing discipline of the generator
         if (twovar) {
             bool conv = (n[0] == 'X');
-            bool same = is_c(v) == is_c(w);
-            bool ok = conv ? (is_c(v) && !is_c(w)) : (n == "FR" ? (same || is_c(v)) : same);
+            bool same = k(v) == k(w);
+            bool ok = conv ? (k(v) == 'C' && k(w) == 'M') : (n == "FR" ? (k(w) != 'C' || k(v) == 'C') : same);
             if (!ok) { illtyped = n; return false; }
         }
         void* at = s[v].buf;
+        int x = f.size() > 1 ? static_cast<int>(f[1]) : 0;
         if (n == "N") {
-            if (is_c(v)) new (at) PC(new Obj(static_cast<int>(f[1])));
-            else if (f[1] % 2) new (at) PM(tlx::make_counting<Obj>(static_cast<int>(f[1])));
-            else new (at) PM(new Obj(static_cast<int>(f[1])));
-            s[v].live = true;
+            if (k(v) == 'M' && x % 2) new (at) PM(tlx::make_counting<Obj>(x));
+            else with(v, [&](auto& a) { using T = std::decay_t<decltype(a)>; new (at) T(new Obj(x)); });
         }
-        else if (n == "DF") { if (is_c(v)) new (at) PC(); else new (at) PM(); s[v].live = true; }
-        else if (n == "NP") { if (is_c(v)) new (at) PC(nullptr); else new (at) PM(nullptr); s[v].live = true; }
+        else if (n == "DF") with(v, [&](auto& a) { using T = std::decay_t<decltype(a)>; new (at) T(); });
+        else if (n == "NP") with(v, [&](auto& a) { using T = std::decay_t<decltype(a)>; new (at) T(nullptr); });
         else if (n == "FR") {
-            if (is_c(v)) new (at) PC(is_c(w) ? s[w].c().get() : s[w].m().get());
-            else new (at) PM(s[w].m().get());
-            s[v].live = true;
+            if (k(w) == 'C') new (at) PC(s[w].as<PC>().get());
+            else {
+                Obj* raw = k(w) == 'M' ? s[w].as<PM>().get() : s[w].as<PN>().get();
+                with(v, [&](auto& a) { using T = std::decay_t<decltype(a)>; new (at) T(raw); });
+            }
         }
-        else if (n == "CC") { if (is_c(v)) new (at) PC(s[w].c()); else new (at) PM(s[w].m()); s[v].live = true; }
-        else if (n == "XCC") { new (at) PC(s[w].m()); s[v].live = true; }
-        else if (n == "MC") { if (is_c(v)) new (at) PC(std::move(s[w].c())); else new (at) PM(std::move(s[w].m())); s[v].live = true; }
-        else if (n == "XMC") { new (at) PC(std::move(s[w].m())); s[v].live = true; }
-        else if (n == "CA") { if (is_c(v)) { PC& o = s[w].c(); s[v].c() = o; } else { PM& o = s[w].m(); s[v].m() = o; } }
-        else if (n == "XCA") { s[v].c() = s[w].m(); }
-        else if (n == "MA") { if (is_c(v)) { PC& o = s[w].c(); s[v].c() = std::move(o); } else { PM& o = s[w].m(); s[v].m() = std::move(o); } }
-        else if (n == "XMA") { s[v].c() = std::move(s[w].m()); }
-        else if (n == "AN") { if (is_c(v)) s[v].c() = PC(new Obj(static_cast<int>(f[1]))); else s[v].m() = PM(new Obj(static_cast<int>(f[1]))); }
-        else if (n == "R") { if (is_c(v)) s[v].c().reset(); else s[v].m().reset(); }
-        else if (n == "SW") {
-            if (is_c(v)) { if (v < w) swap(s[v].c(), s[w].c()); else s[v].c().swap(s[w].c()); }
-            else { if (v < w) swap(s[v].m(), s[w].m()); else s[v].m().swap(s[w].m()); }
-        }
-        else if (n == "U") { if (is_c(v)) s[v].c().unify(); else s[v].m().unify(); }
-        else if (n == "X") { if (is_c(v)) s[v].c().~PC(); else s[v].m().~PM(); s[v].live = false; }
+        else if (n == "CC") with(v, [&](auto& a) { using T = std::decay_t<decltype(a)>; new (at) T(s[w].as<T>()); });
+        else if (n == "XCC") new (at) PC(s[w].as<PM>());
+        else if (n == "MC") with(v, [&](auto& a) { using T = std::decay_t<decltype(a)>; new (at) T(std::move(s[w].as<T>())); });
+        else if (n == "XMC") new (at) PC(std::move(s[w].as<PM>()));
+        else if (n == "CA") with(v, [&](auto& a) { using T = std::decay_t<decltype(a)>; T& o = s[w].as<T>(); a = o; });
+        else if (n == "XCA") s[v].as<PC>() = s[w].as<PM>();
+        else if (n == "MA") with(v, [&](auto& a) { using T = std::decay_t<decltype(a)>; T& o = s[w].as<T>(); a = std::move(o); });
+        else if (n == "XMA") s[v].as<PC>() = std::move(s[w].as<PM>());
+        else if (n == "AN") with(v, [&](auto& a) { using T = std::decay_t<decltype(a)>; a = T(new Obj(x)); });
+        else if (n == "R") with(v, [&](auto& a) { a.reset(); });
+        else if (n == "SW") with(v, [&](auto& a) { using T = std::decay_t<decltype(a)>; T& o = s[w].as<T>(); if (v < w) swap(a, o); else a.swap(o); });
+        else if (n == "U") with(v, [&](auto& a) { a.unify(); });
+        else if (n == "X") with(v, [&](auto& a) { using T = std::decay_t<decltype(a)>; a.~T(); });
         else { illtyped = "unknown op " + n; return false; }
+        if (ctor) s[v].live = true;
+        if (n == "X") s[v].live = false;
         return true;
     }
 
-    // observation + property verdict on the implementation alone
-    std::string observe(std::string& pbad) {
+    // observers that do not enter the printed line: they must be consistent with get()
+    template <typename T> void check_observers(T& a, long v, std::string& pbad) {
+        auto bad = [&](const char* m) { if (pbad.empty()) pbad = m; };
+        auto* p = a.get();
+        if (static_cast<bool>(a) != (p != nullptr) || a.valid() != (p != nullptr) || a.empty() != (p == nullptr)) bad("bool/valid/empty inconsistent with get()");
+        if (!(a == p) || (a != p) || (a < p) || !(a <= p) || (a > p) || !(a >= p)) bad("comparison with the raw pointer inconsistent with get()");
+        std::ostringstream os; os << a; std::ostringstream os2; os2 << p;
+        if (os.str() != os2.str()) bad("operator<< does not print get()");
+        if (p && Registry::get().live.count(p)) { if (&*a != p || a.operator->() != p) bad("operator* / operator-> inconsistent with get()"); }
+        for (long w = 0; w < nv; ++w) {
+            if (!s[w].live || k(w) != k(v)) continue;
+            T& b = s[w].as<T>(); auto* q = b.get();
+            if ((a == b) != (p == q) || (a != b) != (p != q) || (a < b) != (p < q) || (a <= b) != (p <= q) ||
+                (a > b) != (p > q) || (a >= b) != (p >= q)) bad("comparison between handles inconsistent with get()");
+        }
+    }
+
+    // observation + property verdict on the implementation alone; `rel` = variable whose Deleter ran in this step (-1: final clean-up of variable `relv`)
+    std::string observe(std::string& pbad, long rel) {
         auto& R = Registry::get();
         std::ostringstream o;
-        std::vector<int> handles(R.dcount.size(), 0);
-        std::vector<long> seen_count(R.dcount.size(), -1);
+        size_t nobj = R.dcount.size();
+        std::vector<int> handles(nobj, 0);
+        std::vector<long> seen_count(nobj, -1);
+        prev_handles.resize(nobj, 0); orphaned.resize(nobj, 0);
         for (int v = 0; v < nv; ++v) {
             if (v) o << ',';
             if (!s[v].live) { o << '-'; continue; }
             const Obj* p = getp(v);
-            bool b = is_c(v) ? static_cast<bool>(s[v].c()) : static_cast<bool>(s[v].m());
-            bool valid = is_c(v) ? s[v].c().valid() : s[v].m().valid();
-            bool empty = is_c(v) ? s[v].c().empty() : s[v].m().empty();
-            if (b != (p != nullptr) || valid != b || empty == b) { if (pbad.empty()) pbad = "bool/valid/empty inconsistent with get()"; }
+            with(v, [&](auto& a) { check_observers(a, v, pbad); });
             if (!p) {
-                bool u = is_c(v) ? s[v].c().unique() : s[v].m().unique();
+                bool u = false; with(v, [&](auto& a) { u = a.unique(); });
                 if (u && pbad.empty()) pbad = "unique() on an empty handle";
                 o << '0';
                 continue;
             }
             if (!R.live.count(p)) { o << "DANGLING"; if (pbad.empty()) pbad = "a handle remains on a destroyed object"; continue; }
-            size_t uc = is_c(v) ? s[v].c().use_count() : s[v].m().use_count();
-            bool u = is_c(v) ? s[v].c().unique() : s[v].m().unique();
+            size_t uc = 0; bool u = false;
+            with(v, [&](auto& a) { uc = a.use_count(); u = a.unique(); });
+            if (uc != p->reference_count() && pbad.empty()) pbad = "use_count() differs from reference_count()";
             o << p->id << ':' << uc << ':' << (u ? 1 : 0) << ':' << *p->heap;
             ++handles[p->id];
             seen_count[p->id] = static_cast<long>(uc);
             if (u != (uc == 1) && pbad.empty()) pbad = "unique() disagrees with use_count()";
         }
         o << ';';
-        for (size_t i = 0; i < R.dcount.size(); ++i) {
+        for (size_t i = 0; i < nobj; ++i) {
             if (i) o << '.';
             o << R.dcount[i];
+            bool dropped_now = prev_handles[i] > 0 && handles[i] == 0;
+            bool by_nodelete = dropped_now && rel >= 0 && k(rel) == 'N';
+            if (by_nodelete && R.dcount[i] == 0) orphaned[i] = 1;
             if (pbad.empty()) {
                 if (handles[i] > 0 && seen_count[i] != handles[i]) pbad = "use_count differs from the number of handles";
                 else if (handles[i] > 0 && R.dcount[i] != 0) pbad = "object destroyed while a handle remains";
-                else if (handles[i] == 0 && R.dcount[i] == 0) pbad = "object without handles not destroyed";
+                else if (by_nodelete && R.dcount[i] != 0) pbad = "object destroyed through a no-delete handle";
+                else if (handles[i] == 0 && R.dcount[i] == 0 && !orphaned[i]) pbad = "object without handles not destroyed";
+                else if (handles[i] == 0 && R.dcount[i] == 0 && R.live.count(R.addr[i]) && R.addr[i]->reference_count() != 0)
+                    pbad = "reference_count() of an unowned object is not zero";
                 else if (R.dcount[i] > 1) pbad = "object destroyed more than once";
             }
+            prev_handles[i] = handles[i];
         }
+        o << ';';
+        for (size_t i = 0; i < nobj; ++i) { if (i) o << '.'; o << orphaned[i]; }
         if (R.errors && pbad.empty()) pbad = R.first_error;
         return o.str();
     }
 };
 
 static void run_seq(std::istringstream& in) {
-    int nv = 0; in >> nv;
+    std::string kinds; in >> kinds;
     Registry::get().reset();
     std::ostringstream out;
     std::string verdict;
     {
-        Machine M; M.nv = nv > MAXV ? MAXV : nv;
+        Machine M; M.kinds = kinds.substr(0, MAXV); M.nv = static_cast<int>(M.kinds.size());
+        for (char c : M.kinds) if (c != 'M' && c != 'C' && c != 'N') M.illtyped = "kinds";
         std::string tok; int stepno = 0;
-        while (in >> tok) {
+        while (M.illtyped.empty() && in >> tok) {
             std::vector<long> f; std::string name; size_t p = 0; bool first = true;
             while (p <= tok.size()) {
                 size_t q = tok.find(',', p); if (q == std::string::npos) q = tok.size();
@@ -191,15 +236,22 @@ static void run_seq(std::istringstream& in) {
             if (f.empty()) { out << "skip "; continue; }
             if (!M.apply(name, f)) { out << "skip "; continue; }
             std::string pbad;
-            out << M.observe(pbad) << ' ';
+            out << M.observe(pbad, f[0]) << ' ';
             if (!pbad.empty() && verdict.empty()) verdict = "bad@" + std::to_string(stepno) + ":" + pbad;
         }
         // end of scope: destroy what is still alive, in index order
-        for (int v = 0; v < M.nv; ++v) if (M.s[v].live) M.apply("X", std::vector<long>{v});
         std::string pbad;
-        out << "F:" << M.observe(pbad);
+        std::string last;
+        for (int v = 0; v < M.nv; ++v)
+            if (M.s[v].live) { M.apply("X", std::vector<long>{v}); last = M.observe(pbad, v); }
+        if (last.empty()) last = M.observe(pbad, -1);
+        out << "F:" << last;
         if (!pbad.empty() && verdict.empty()) verdict = "bad@final:" + pbad;
-        if (!Registry::get().live.empty() && verdict.empty()) verdict = "bad@final:leaked objects";
+        // objects left alive by a no-delete handle belong to the user: release them now
+        auto& R = Registry::get();
+        for (size_t i = 0; i < R.addr.size(); ++i)
+            if (R.live.count(R.addr[i]) && M.orphaned[i] && R.addr[i]->reference_count() == 0) { delete R.addr[i]; --R.dcount[i]; }
+        if (!R.live.empty() && verdict.empty()) verdict = "bad@final:leaked objects";
         if (!M.illtyped.empty()) out << " ILLTYPED(" << M.illtyped << ")";
     }
     out << " P=" << (verdict.empty() ? "ok" : verdict);
